@@ -28,20 +28,9 @@ use mithril_common::entities::Certificate;
 use chain::Workshop;
 use generate::{Event, Scenario, Subject};
 use oracle::{Broken, LinkShape, Oracle, link_shape, short};
-use provider::{CacheEvent, Neutralise, Provider, RecordingCache, Served, UniverseView};
+use provider::{CacheEvent, Provider, RecordingCache, Served, UniverseView};
 
 pub const PROPERTY: &str = "C03";
-
-/// Known-finding ids this engine can attribute (see REPORT.md).
-const F_CACHE_LOOKUP: &str = "C03-cache-lookup-by-unverified-hash";
-const F_CACHE_POISON: &str = "C03-cache-voucher-from-rejected-call";
-const F_FORWARD_LINK: &str = "C03-link-to-following-epoch";
-
-#[derive(Clone, Debug, Default)]
-struct Counterfactual {
-    hide_vouchers_of_rejected_calls: bool,
-    never_serve: BTreeSet<usize>,
-}
 
 #[derive(Clone, Debug)]
 struct CallResult {
@@ -107,15 +96,15 @@ fn logger() -> slog::Logger {
 }
 
 /// Execute the events against fresh client objects. Pure function of (workshop, events, cf).
-fn execute(sc: &Scenario, ws: &Workshop, events: &[Event], cf: &Counterfactual) -> Vec<CallResult> {
+fn execute(sc: &Scenario, ws: &Workshop, events: &[Event]) -> Vec<CallResult> {
     let view = UniverseView {
         json: ws.built.iter().map(|b| b.json.clone()).collect(),
         hash_field: ws.built.iter().map(|b| b.cert.hash.clone()).collect(),
+        previous_hash: ws.built.iter().map(|b| b.cert.previous_hash.clone()).collect(),
         by_content: ws.by_content.clone(),
     };
     let provider = Provider::new(view);
-    provider.set_neutralise(Neutralise { serve_ids: cf.never_serve.clone() });
-    let cache = if sc.cache { Some(RecordingCache::new(cf.hide_vouchers_of_rejected_calls)) } else { None };
+    let cache = if sc.cache { Some(RecordingCache::new()) } else { None };
     let key_hex = ws.genesis_verification_key_hex();
     let client_verifier = ClientCertificateVerifier::new(
         provider.clone(),
@@ -272,58 +261,10 @@ fn first_violation(results: &[CallResult]) -> Option<&CallResult> {
     results.iter().find(|r| r.violation.is_some())
 }
 
-/// Ids of all certificates whose link goes to a certificate of the FOLLOWING epoch.
-fn forward_linked(ws: &Workshop) -> BTreeSet<usize> {
-    let mut out = BTreeSet::new();
-    for (i, b) in ws.built.iter().enumerate() {
-        if let Some(p) = ws.by_content.get(&b.cert.previous_hash)
-            && link_shape(*b.cert.epoch, *ws.built[*p].cert.epoch) == LinkShape::FollowingEpoch
-        {
-            out.insert(i);
-        }
-    }
-    out
-}
-
-/// Counterfactual attribution: a violation is attributed to a known finding only if the same
-/// history with that finding's specific trigger neutralised in the harness no longer violates at
-/// that call.
-fn attribute(sc: &Scenario, ws: &Workshop, events: &[Event], bad: &CallResult) -> Option<String> {
-    let (clause, _) = bad.violation.as_ref()?;
-    if clause != "unsound-accept" {
-        return None;
-    }
-    let still_violates = |cf: &Counterfactual| {
-        execute(sc, ws, events, cf)
-            .iter()
-            .any(|r| r.event_index == bad.event_index && r.violation.as_ref().is_some_and(|(c, _)| c == clause))
-    };
-    if !bad.unverified_hash_cache_hits.is_empty() {
-        let cf = Counterfactual { never_serve: bad.unverified_hash_cache_hits.clone(), ..Default::default() };
-        if !still_violates(&cf) {
-            return Some(F_CACHE_LOOKUP.to_string());
-        }
-    }
-    if bad.hit_voucher_of_rejected_call {
-        let cf = Counterfactual { hide_vouchers_of_rejected_calls: true, ..Default::default() };
-        if !still_violates(&cf) {
-            return Some(F_CACHE_POISON.to_string());
-        }
-    }
-    let fwd = forward_linked(ws);
-    if !fwd.is_empty() {
-        let cf = Counterfactual { never_serve: fwd, ..Default::default() };
-        if !still_violates(&cf) {
-            return Some(F_FORWARD_LINK.to_string());
-        }
-    }
-    None
-}
-
 /// ddmin over events, then over the lies of each remaining call.
 fn minimise(sc: &Scenario, ws: &Workshop, clause: &str) -> Vec<Event> {
     let fails = |evs: &[Event]| {
-        execute(sc, ws, evs, &Counterfactual::default())
+        execute(sc, ws, evs)
             .iter()
             .any(|r| r.violation.as_ref().is_some_and(|(c, _)| c == clause))
     };
@@ -534,7 +475,7 @@ impl CertChainEngine {
             digest.add(&b.cert.hash);
             digest.add(&b.content_hash);
         }
-        let results = execute(sc, ws, &sc.events, &Counterfactual::default());
+        let results = execute(sc, ws, &sc.events);
         tally(&mut report, sc, ws, &results, &mut fp, &mut digest);
         report.count("sim_certificates_built", ws.built.len() as u64);
         report.count("sim_epochs", ws.built.iter().take(sc.honest_n).map(|b| *b.cert.epoch).collect::<BTreeSet<_>>().len() as u64);
@@ -561,7 +502,7 @@ impl CertChainEngine {
         if let Some(bad) = first_violation(&results) {
             let (clause, _) = bad.violation.clone().unwrap();
             let events = if do_minimise { minimise(sc, ws, &clause) } else { sc.events.clone() };
-            let min_results = execute(sc, ws, &events, &Counterfactual::default());
+            let min_results = execute(sc, ws, &events);
             let (events, min_results) = if min_results.iter().any(|r| r.violation.as_ref().is_some_and(|(c, _)| *c == clause)) {
                 (events, min_results)
             } else {
@@ -570,12 +511,11 @@ impl CertChainEngine {
             let mut seen: BTreeMap<String, ()> = BTreeMap::new();
             for r in min_results.iter().filter(|r| r.violation.is_some()) {
                 let (c, d) = r.violation.clone().unwrap();
-                let finding = attribute(sc, ws, &events, r);
-                let key = format!("{c}/{finding:?}");
-                if seen.insert(key, ()).is_some() {
+                // every finding of this property is repaired in /repo: nothing is attributed
+                if seen.insert(c.clone(), ()).is_some() {
                     continue;
                 }
-                report.violations.push(Violation { property: PROPERTY.into(), clause: c, detail: d, finding });
+                report.violations.push(Violation { property: PROPERTY.into(), clause: c, detail: d, finding: None });
             }
             let trace: Vec<Value> = min_results.iter().map(|r| describe_call(ws, &events[r.event_index], r)).collect();
             let min_sc = Scenario { events, ..sc.clone() };
